@@ -516,6 +516,18 @@ func runBrokerScenario(o *out, tag, replay string, gen func(r *rng) (plain, hook
 		for i, h := range ghs {
 			emitGrpcHistory(o, h, gres[i], gerrs[i])
 		}
+		// the multiplexed gRPC broker: unmatched / late peers, then a fresh pair, both roles
+		type ml struct{ role, kind, impl, pred string }
+		var mls []*ml
+		for _, role := range []string{"server", "client"} {
+			for _, kind := range []string{"dial-unmatched", "dial-then-late-accept", "accept-unmatched"} {
+				mls = append(mls, &ml{role: role, kind: kind})
+			}
+		}
+		parallel(len(mls), len(mls), func(i int) { mls[i].impl, mls[i].pred = runMuxLiveness(mls[i].role, mls[i].kind) })
+		for _, m := range mls {
+			o.emit(fmt.Sprintf("!C09.mux role=%s kind=%s", m.role, m.kind), m.impl, m.pred)
+		}
 		// close_ends_goroutines: all pairs are closed; a few seconds later no broker goroutine remains
 		time.Sleep(6500 * time.Millisecond)
 		n := muxGoroutines()
